@@ -63,7 +63,10 @@ let random_program (m : bool) (seed : int) (steps : int) : string option =
            | _ -> if i >= steps then closers @ shuffle alphabet else shuffle alphabet) in
         (match first md stk cands with
          | None -> None
-         | Some (t, md', stk') -> Buffer.add_string buf (tok_text t); Buffer.add_char buf (if rnd 8 = 0 then '\n' else ' '); go md' stk' (i + 1)) in
+         | Some (t, md', stk') ->
+             (* no line break before a postfix ++ (a restricted production; lex_bytes refuses it) *)
+             if i > 0 then Buffer.add_char buf (if t <> TP PPlusPlus && rnd 8 = 0 then '\n' else ' ');
+             Buffer.add_string buf (tok_text t); go md' stk' (i + 1)) in
   go (MStmt false) [] 0
 
 let () =
